@@ -59,6 +59,15 @@ def sd_value(sd):
     return _SD_OTHER[sd]
 
 
+def build_tied(nodes):
+    """sibling nodes that are equal become one and the same object (the same module listed several times)"""
+    built = []
+    for i, c in enumerate(nodes):
+        j = next((j for j in range(i) if nodes[j] == c), None)
+        built.append(built[j] if j is not None else build(c))
+    return built
+
+
 def build(node, log=None):
     """construct the real object; `log` (a list) receives the returned value of every add_transform call of the
     TOP-MOST multiscale node"""
@@ -74,7 +83,7 @@ def build(node, log=None):
         return ReversePermutation(node['n'], dim=node['dim'])
     if k == 'comp':
         # the documented argument is "an iterable of Transform objects": a list, a tuple or a one-shot generator, by turns
-        children = [build(c) for c in node['c']]
+        children = build_tied(node['c'])
         how = len(children) % 3
         return CompositeTransform(children if how == 0 else ((c for c in children) if how == 1 else tuple(children)))
     if k == 'inv':
@@ -248,7 +257,7 @@ def gen_preserving(rng, S, d):
     if r < 0.2:
         return gen_atom(rng, S)
     if r < 0.5:
-        return {'k': 'comp', 'c': [gen_preserving(rng, S, d - 1) for _ in range(rng.randint(0, 3))]}
+        return {'k': 'comp', 'c': _tied(rng, [gen_preserving(rng, S, d - 1) for _ in range(rng.randint(0, 3))])}
     if r < 0.7:
         return {'k': 'inv', 'c': gen_preserving(rng, S, d - 1)}
     # multiscale: flat -> flat directly; otherwise S -> flat -> S through an inverted multiscale
@@ -262,7 +271,16 @@ def gen_preserving(rng, S, d):
         if m1 is not None and m2 is not None:
             mid = [gen_preserving(rng, [math.prod(S)], d - 1)] if rng.random() < 0.5 else []
             return {'k': 'comp', 'c': [m1] + mid + [{'k': 'inv', 'c': m2}]}
-    return {'k': 'comp', 'c': [gen_preserving(rng, S, d - 1) for _ in range(rng.randint(1, 2))]}
+    return {'k': 'comp', 'c': _tied(rng, [gen_preserving(rng, S, d - 1) for _ in range(rng.randint(1, 2))])}
+
+
+def _tied(rng, cs):
+    """weight tying: now and then one part appears more than once in a composite — `build` makes equal sibling nodes ONE object"""
+    import copy
+    if cs and rng.random() < 0.35:
+        for _ in range(rng.randint(1, 2)):
+            cs.insert(rng.randrange(len(cs) + 1), copy.deepcopy(cs[rng.randrange(len(cs))]))
+    return cs
 
 
 def gen_general(rng, S, d):
